@@ -519,6 +519,9 @@ def run(chk):
             continue
         kindname = re.match(r"(const )?std::(\w+)<", targ)
         label = {"vector": "Vector", "map": "Map", "pair": "Pair" if targ.startswith("std::pair<chaiscript::Boxed_Value") else "Map_Pair"}.get(kindname.group(2) if kindname else "", targ[:40])
+        if label not in ("Vector", "Map", "Map_Pair", "Pair"):
+            r11.note("not one of the engine's built-in containers (registered by a host/test unit): %s" % targ[:70])
+            continue
         if label in seen11:
             continue
         seen11.add(label)
